@@ -6,6 +6,8 @@ individual's regimen set by hand, the C02 hierarchy reference); a tap on every
 individual's owned mechanistic model checks the regimen it will be solved
 under; metamorphic pairs for the invariances.
 """
+import functools
+
 import numpy as np
 import pandas as pd
 import pints
@@ -317,6 +319,7 @@ def _patch():
     _PATCHED = True
     orig = chi.LogLikelihood.__init__
 
+    @functools.wraps(orig)
     def init(self, *a, **k):
         orig(self, *a, **k)
         if _CREATED['on']:
